@@ -4,6 +4,8 @@ import math
 import random
 from fractions import Fraction
 
+from props._util import same_num, same_dict
+
 ID = 'C12'
 LEVEL = 'proof'
 CONTRACTS = ['contracts.trackers', 'contracts.multi_value']
@@ -61,18 +63,18 @@ def _history_check(kind, alpha, updates):
             if k not in ref:
                 ref[k] = (1, _ref_step(kind, alpha, 0, Fraction(0), upd[k]))
         got = m.get()
-        if set(got) != set(ref) or any(got[k] != ref[k][1] for k in ref) or m.N != i + 1:
+        if set(got) != set(ref) or any(not same_num(got[k], ref[k][1]) for k in ref) or m.N != i + 1:
             return f"after step {i}: got {got}, N={m.N}; expected { {k: v[1] for k, v in ref.items()} }, N={i + 1}"
         if any(m.tracked_value[k].N != ref[k][0] for k in ref):
             return f"after step {i}: per-key counts {[m.tracked_value[k].N for k in ref]} differ from {[ref[k][0] for k in ref]}"
         norm = m.get_normalized()
-        s = sum(got.values())
+        s = sum(ref[k][1] for k in ref)
         if len(got) <= 1:
-            ok = norm == got
+            ok = same_dict(norm, {k: ref[k][1] for k in ref})
         elif s != 0:
-            ok = all(norm[k] * s == got[k] for k in got) and sum(norm.values()) == 1
+            ok = set(norm) == set(ref) and all(same_num(norm[k], ref[k][1] / s) for k in ref) and same_num(sum(norm.values()), 1)
         else:
-            ok = all(norm[k] == 0 for k in got)
+            ok = set(norm) == set(ref) and all(norm[k] == 0 for k in ref)
         if not ok:
             return f"after step {i}: normalised view {norm} of {got}"
     return None
